@@ -107,6 +107,22 @@ func c08Impl(in []int64) []int64 {
 		dst := mem[a : a+b : a+b]
 		src := mem[c : c+d : c+d]
 		key, x3, x4 := exact(ToBytes(l2)), exact(ToBytes(l3)), exact(ToBytes(l4))
+		// The key buffer is one that has just been used with ANOTHER key of the same length: the helpers are called
+		// with the complemented key first (scratch data), then the buffer is overwritten in place with the case's
+		// key.  A result that depends on anything but the bytes passed in (a cache keyed by the slice, say) shows.
+		if n := len(key); n == 16 || n == 24 || n == 32 {
+			orig := append([]byte{}, key...)
+			for i := range key {
+				key[i] = ^orig[i]
+			}
+			sd, ss := make([]byte, 32), make([]byte, 16)
+			_ = cryptz.AESCBCEncrypt(sd, ss, key, make([]byte, 16))
+			_, _ = cryptz.AESCBCDecrypt(make([]byte, 32), sd, key, make([]byte, 16))
+			gd := make([]byte, cryptz.AESGCMEncryptLen(ss))
+			_ = cryptz.AESGCMEncrypt(gd, ss, key, make([]byte, 12), nil)
+			_ = cryptz.AESGCMDecrypt(make([]byte, 16), gd, key, make([]byte, 12), nil)
+			copy(key, orig)
+		}
 		switch kind {
 		case 1:
 			if err := cryptz.AESCBCEncrypt(dst, src, key, x3); err != nil {
